@@ -3,11 +3,14 @@
   Proved here, for every event and every state: every BGP message the agent writes goes to the connection its
   state machine tracks (`FSM.protocol`).  The "at most one live connection" invariant itself does NOT hold of the
   pinned code (three recorded known findings with their witnesses below: the connector returned by connectTCP
-  is never kept, so nothing can abort a pending attempt); outside those histories it is checked by the
-  correspondence suite and the C12 oracle on the real implementation.
+  is never kept, so nothing can abort a pending attempt); for every history that avoids exactly those three
+  situations it is proved at the end of this file (`C12_at_most_one_calm`: at most one live connection, and every
+  open connection is the tracked one - none is left open and unreferenced).
 -/
 import Yabgp.Props.C18
 import Yabgp.Lemmas.OutsExt
+import Yabgp.Lemmas.OneConn
+import Yabgp.Props.C02
 
 namespace Yabgp
 open Sess
@@ -347,7 +350,120 @@ theorem KF_C12_idlehold_after_late_connection_lost :
 
 end Yabgp
 
+namespace Yabgp
+open Sess
+
+variable (U : Bool → Bytes → UpdClass)
+
+/-! ### at most one live connection, outside the recorded findings -/
+
+/-- the run avoids the recorded findings: every event is one the environment can produce, and no operator start,
+    connect-retry expiry or automatic start (idle-hold expiry, the deferred boot call) happens while a connection
+    attempt is still pending -/
+def CalmRun : World → List Ev → Prop
+  | _, [] => True
+  | w, e :: r => enabled w.sess e = true ∧ Core.calmC (core w.sess) e ∧ CalmRun (step U w e) r
+
+theorem one_first (cfg : Cfg) (e0 : Ev) (he0 : e0 = .boot ∨ e0 = .manualStart) :
+    Core.One (core (step U (bootWorld cfg) e0).sess) := by
+  have hn : Core.NoLive (core ((boot cfg).withOuts [])) := by
+    intro j hj; simp [core, boot, withOuts] at hj
+  rcases he0 with rfl | rfl
+  · simp only [step, bootWorld]
+    rw [core_autoStart]
+    simp only [Core.autoStart, core, boot, withOuts, ↓reduceIte, Bool.false_eq_true]
+    exact Core.one_connectTcp (hn.of_conns rfl)
+  · simp only [step, bootWorld]
+    rw [core_manualStart]
+    simp only [Core.manualStart, core, boot, withOuts]
+    exact Core.one_connectTcp (hn.of_conns rfl)
+
+theorem one_step (w : World) (e : Ev) (hen : enabled w.sess e = true) (hcalm : Core.calmC (core w.sess) e)
+    (h : Core.One (core w.sess)) (hh : Core.Heal (core w.sess)) : Core.One (core (step U w e).sess) :=
+  (core_step_inv U (fun c => Core.One c ∧ Core.Heal c)
+    (fun c hc o ho => ⟨Core.one_frameOutcome hc.1 o ho, Core.heal_frameOutcome hc.2 o ho⟩) w e hen
+    (fun hc he o ho => ⟨Core.one_stepOutcome hc.1 hc.2 e he hcalm o ho, Core.heal_stepOutcome hc.2 e he o ho⟩)
+    ⟨h, hh⟩).1
+
+theorem calm_enabledRun (evs : List Ev) : ∀ w, CalmRun U w evs → EnabledRun U w evs := by
+  induction evs with
+  | nil => intro _ _; trivial
+  | cons e r ih => intro w h; exact ⟨h.1, ih _ h.2.2⟩
+
+theorem one_run (evs : List Ev) : ∀ (w : World), Core.One (core w.sess) → Core.Heal (core w.sess) → CalmRun U w evs →
+    Core.One (core (run U w evs).sess) := by
+  induction evs with
+  | nil => intro w h _ _; exact h
+  | cons e r ih =>
+    intro w h hh hc
+    exact ih _ (one_step U w e hc.1 hc.2.1 h hh) (heal_step U w e hc.1 hh) hc.2.2
+
+theorem filter_length_le_one {α : Type} (p : α → Bool) : ∀ (l : List α),
+    (∀ i j (hi : i < l.length) (hj : j < l.length), p l[i] = true → p l[j] = true → i = j) → (l.filter p).length ≤ 1
+  | [], _ => by simp
+  | x :: r, h => by
+    have hr : ∀ i j (hi : i < r.length) (hj : j < r.length), p r[i] = true → p r[j] = true → i = j := by
+      intro i j hi hj pi pj
+      have := h (i + 1) (j + 1) (by simp; omega) (by simp; omega) (by simpa using pi) (by simpa using pj)
+      omega
+    have ih := filter_length_le_one p r hr
+    by_cases hx : p x = true
+    · have hnone : r.filter p = [] := by
+        rw [List.filter_eq_nil_iff]
+        intro y hy hpy
+        obtain ⟨k, hk, rfl⟩ := List.getElem_of_mem hy
+        have := h 0 (k + 1) (by simp) (by simp; omega) (by simpa using hx) (by simpa using hpy)
+        omega
+      simp [List.filter_cons, hx, hnone]
+    · simp [List.filter_cons, hx]; exact ih
+
+/-- **At most one connection or attempt, none left open and unreferenced** - for every history after the agent's start
+    that avoids the three recorded findings (`CalmRun`): any sequence of peer behaviour, failures, timers, operator
+    stops, and starts / retry expiries / automatic starts that do not find an attempt pending. -/
+theorem C12_at_most_one_calm (cfg : Cfg) (e0 : Ev) (he0 : e0 = .boot ∨ e0 = .manualStart) (evs : List Ev)
+    (hc : CalmRun U (step U (bootWorld cfg) e0) evs) :
+    liveCount (run U (bootWorld cfg) (e0 :: evs)).sess ≤ 1 ∧
+    ∀ j, j < (run U (bootWorld cfg) (e0 :: evs)).sess.conns.length →
+      ((run U (bootWorld cfg) (e0 :: evs)).sess.conn j).phase = .connected →
+      (run U (bootWorld cfg) (e0 :: evs)).sess.proto = some j := by
+  have hone := one_run U evs _ (one_first U cfg e0 he0) (heal_first U cfg e0 he0) hc
+  have hrun : run U (bootWorld cfg) (e0 :: evs) = run U (step U (bootWorld cfg) e0) evs := rfl
+  rw [hrun]
+  generalize (run U (step U (bootWorld cfg) e0) evs).sess = s at hone
+  have hlen : (core s).conns.length = s.conns.length := by simp [core]
+  constructor
+  · unfold liveCount
+    apply filter_length_le_one
+    intro i j hi hj pi pj
+    have li : Core.Live (core s) i := by
+      unfold Core.Live; rw [core_conn]
+      have : s.conn i = s.conns[i] := by simp [Sess.conn, List.getD_eq_getElem?_getD, hi]
+      simpa [pd, this] using pi
+    have lj : Core.Live (core s) j := by
+      unfold Core.Live; rw [core_conn]
+      have : s.conn j = s.conns[j] := by simp [Sess.conn, List.getD_eq_getElem?_getD, hj]
+      simpa [pd, this] using pj
+    exact hone.one i j (by rw [hlen]; exact hi) (by rw [hlen]; exact hj) li lj
+  · intro j hj hph
+    have := hone.tracked j (by rw [hlen]; exact hj) (by rw [core_conn]; exact hph)
+    exact this.1
+
+/-- non-vacuity: a whole cycle - connect, a message that ends the session, idle-hold, reconnect - is a calm run -/
+example : CalmRun exU (step exU (bootWorld exCfg) .boot)
+    [.connOk 0, .chunk 0 exKeepalive, .advance 90, .fire .idleHold, .lost 0, .connOk 1] := by
+  have hc : (core (step exU (step exU (step exU (step exU (bootWorld exCfg) .boot) (.connOk 0)) (.chunk 0 exKeepalive))
+      (.advance 90)).sess).conns = [(.closing, true)] := by decide
+  refine ⟨by decide, trivial, by decide, trivial, by decide, trivial, by decide, ?_, by decide, trivial, by decide, trivial, trivial⟩
+  intro j hj
+  rw [hc] at hj
+  have : j = 0 := by simpa using hj
+  subst this
+  simp [Core.conn, hc]
+
+end Yabgp
+
 #print axioms Yabgp.C12_writes_to_tracked
 #print axioms Yabgp.KF_C12_start_while_attempt_pending
 #print axioms Yabgp.KF_C12_retry_while_attempt_pending
 #print axioms Yabgp.KF_C12_idlehold_after_late_connection_lost
+#print axioms Yabgp.C12_at_most_one_calm
